@@ -86,6 +86,10 @@ func newBuild(shape int, A, B, C []byte) (*hlib.Build, bool) {
 		}
 		n.Files[0].Data[0] = rt.Byte("edit")
 		n.Files = append(n.Files, hlib.File{Path: "X", Data: clone(A)}, hlib.File{Path: "sub/Y", Data: clone(A)})
+	case 32: // A kept and duplicated onto the existing path B, whose (longer) old content is simply dropped
+		n.Files = []hlib.File{{Path: "A", Data: clone(A)}, {Path: "B", Data: clone(A)}, {Path: "sub/C", Data: clone(C)}}
+	case 33: // sub/C (shorter) duplicated onto both A and B, originals dropped
+		n.Files = []hlib.File{{Path: "A", Data: clone(C)}, {Path: "B", Data: clone(C)}, {Path: "sub/C", Data: clone(C)}}
 	// kind swaps
 	case 20: // file A becomes a directory holding the old content
 		n.Files[0].Path = "A/inner"
